@@ -169,3 +169,216 @@ Qed.
 
 Lemma d_width_le sg w lo hi : 1 <= w -> in_type sg w lo = true -> in_type sg w hi = true -> lo <= hi -> 0 <= d_width lo hi w <= w.
 Proof. intros Hw Tlo Thi H. apply (d_width_window sg w lo hi Hw Tlo Thi H). Qed.
+
+(* ---------- the swizzle terms ---------- *)
+Lemma swizzle_term_true s id w pat h l : 1 <= w -> 0 <= l <= h -> h < w ->
+  (bv_true s (BOp2 OEq (BSlice (BVar id w) h l) (BConst (slice_val pat h l) (h - l + 1))) = Some true
+   <-> slice_val (wrapU w (s id)) h l = slice_val pat h l).
+Proof.
+  intros Hw Hl Hh. unfold bv_true. cbn [bv_eval].
+  replace (1 <=? w) with true by lia. replace ((0 <=? l) && (l <=? h) && (h <? w)) with true by lia.
+  replace (1 <=? h - l + 1) with true by lia. rewrite Z.eqb_refl. cbn [op2_eval].
+  assert (R : wrapU (h - l + 1) (slice_val pat h l) = slice_val pat h l).
+  { unfold wrapU, slice_val. apply Z.mod_mod. apply Z.pow_nonzero; lia. }
+  rewrite R. fold (slice_val (wrapU w (s id)) h l).
+  destruct (Z.eqb_spec (slice_val (wrapU w (s id)) h l) (slice_val pat h l)) as [E|E]; cbn.
+  - split; auto.
+  - split; [discriminate | contradiction].
+Qed.
+
+Lemma swizzle_terms_true s id sg w lo hi pat :
+  1 <= w -> in_type sg w lo = true -> in_type sg w hi = true -> lo <= hi ->
+  ((forall t, In t (swizzle_terms id w lo hi pat) -> bv_true s t = Some true) <->
+   wrapU w (s id) mod 2 ^ d_width lo hi w = pat mod 2 ^ d_width lo hi w).
+Proof.
+  intros Hw Tlo Thi Hle. pose proof (d_width_le sg w lo hi Hw Tlo Thi Hle) as HD.
+  rewrite <- slices_lowbits by lia. unfold swizzle_terms. split.
+  - intros A p Hp. pose proof (intervals_bounds _ p (proj1 HD) Hp) as B.
+    apply (swizzle_term_true s id w pat); try lia. apply A.
+    apply in_map_iff. exists p. split; auto.
+  - intros A t Ht. apply in_map_iff in Ht. destruct Ht as (p & <- & Hp).
+    pose proof (intervals_bounds _ p (proj1 HD) Hp) as B.
+    apply swizzle_term_true; try lia. apply A; auto.
+Qed.
+
+Lemma swizzle_self_consistent s id sg w lo hi v :
+  1 <= w -> in_type sg w lo = true -> in_type sg w hi = true -> lo <= v <= hi -> wrapU w (s id) = wrapU w v ->
+  forall t, In t (swizzle_terms id w lo hi v) -> bv_true s t = Some true.
+Proof.
+  intros Hw Tlo Thi Hv E. pose proof (d_width_le sg w lo hi Hw Tlo Thi ltac:(lia)) as HD.
+  apply (swizzle_terms_true s id sg w lo hi v); auto; [lia|].
+  rewrite E. unfold wrapU. apply mod_mod_pow2_le. lia.
+Qed.
+
+Lemma swizzle_pins_value s id sg w lo hi v x :
+  1 <= w -> in_type sg w lo = true -> in_type sg w hi = true -> lo <= v <= hi -> lo <= x <= hi ->
+  wrapU w (s id) = wrapU w x ->
+  (forall t, In t (swizzle_terms id w lo hi v) -> bv_true s t = Some true) -> x = v.
+Proof.
+  intros Hw Tlo Thi Hv Hx E A. pose proof (d_width_le sg w lo hi Hw Tlo Thi ltac:(lia)) as HD.
+  apply (swizzle_terms_true s id sg w lo hi v) in A; auto; [|lia].
+  rewrite E in A. unfold wrapU in A. rewrite mod_mod_pow2_le in A by lia.
+  apply (lowbits_injective sg w lo hi); auto.
+Qed.
+
+(* ---------- range trimming ---------- *)
+Definition in_rng (r : Z * Z) (v : Z) : bool := (fst r <=? v) && (v <=? snd r).
+
+Lemma dom_in_iff d v : dom_in d v = true <-> exists r, In r d /\ fst r <= v <= snd r.
+Proof.
+  unfold dom_in. rewrite existsb_exists. split; intros (r & Hr & H); exists r; split; auto; lia.
+Qed.
+
+Lemma in_firstn_nth {A} (d : list A) j n r : nth_error d j = Some r -> (j < n)%nat -> In r (firstn n d).
+Proof.
+  revert j n. induction d as [|a t IH]; intros j n H Hn.
+  - destruct j; discriminate.
+  - destruct n; [lia|]. destruct j; cbn in *.
+    + left. congruence.
+    + right. apply (IH j); auto. lia.
+Qed.
+
+Lemma in_skipn_nth {A} (d : list A) j n r : nth_error d j = Some r -> (n <= j)%nat -> In r (skipn n d).
+Proof.
+  revert j n. induction d as [|a t IH]; intros j n H Hn.
+  - destruct j; discriminate.
+  - destruct n; [cbn [skipn]; eapply nth_error_In; eauto|]. destruct j; [lia|]. cbn in *. apply (IH j); auto. lia.
+Qed.
+
+(* max *)
+Lemma last_le_cases d m i best : last_le d m i best = best \/ (i <= last_le d m i best)%nat.
+Proof.
+  revert i best. induction d as [|r t IH]; intros i best; cbn [last_le]; auto.
+  destruct (IH (S i) (if fst r <=? m then i else best)) as [E|E]; rewrite ?E.
+  - destruct (fst r <=? m); auto.
+  - right. lia.
+Qed.
+
+Lemma last_le_ge d m i best j r :
+  nth_error d j = Some r -> fst r <= m -> (i + j <= last_le d m i best)%nat.
+Proof.
+  revert i best j. induction d as [|r0 t IH]; intros i best j H Hr.
+  - destruct j; discriminate.
+  - cbn [last_le]. destruct j; cbn in H.
+    + injection H as ->. replace (fst r <=? m) with true by lia.
+      destruct (last_le_cases t m (S i) i) as [E|E]; lia.
+    + specialize (IH (S i) (if fst r0 <=? m then i else best) j H Hr). lia.
+Qed.
+
+Lemma propagate_max_sound d max_v v : dom_in d v = true -> v <= max_v -> dom_in (propagate_max d max_v) v = true.
+Proof.
+  intros H Hv. apply dom_in_iff in H. destruct H as (r & Hr & Hin).
+  apply In_nth_error in Hr. destruct Hr as (j & Hj).
+  pose proof (last_le_ge d max_v 0 0 j r Hj ltac:(lia)) as Hk.
+  unfold propagate_max. destruct d as [|r0 t] eqn:Ed; [destruct j; discriminate|]. rewrite <- Ed in *.
+  cbv zeta. set (k := last_le d max_v 0 0) in *.
+  assert (Hk' : In r (firstn (S k) d)) by (apply (in_firstn_nth d j); auto; lia).
+  destruct (rev (firstn (S k) d)) as [|rl before] eqn:Er.
+  - apply (f_equal (@rev _)) in Er. rewrite rev_involutive in Er. rewrite Er in Hk'. destruct Hk'.
+  - apply (f_equal (@rev _)) in Er. rewrite rev_involutive in Er. cbn [rev] in *. rewrite Er in Hk'.
+    apply dom_in_iff. apply in_app_or in Hk'. destruct Hk' as [Hb|[<-|[]]].
+    + exists r. split; auto. apply in_or_app. auto.
+    + exists (fst rl, Z.min (snd rl) max_v). split; [apply in_or_app; right; left; auto|]. cbn [fst snd]. lia.
+Qed.
+
+(* min and intersection need ascending, disjoint, non-empty ranges *)
+Fixpoint sorted_dom (d : dom) : bool :=
+  match d with
+  | [] => true
+  | a :: t => (fst a <=? snd a) && match t with [] => true | b :: _ => snd a <? fst b end && sorted_dom t
+  end.
+
+Lemma sorted_dom_tail a t : sorted_dom (a :: t) = true -> sorted_dom t = true.
+Proof. cbn [sorted_dom]. intros H. apply andb_true_iff in H. apply H. Qed.
+
+Lemma sorted_dom_head_lt a t r : sorted_dom (a :: t) = true -> In r t -> snd a < fst r.
+Proof.
+  revert a. induction t as [|b t IH]; intros a H Hr; [destruct Hr|].
+  pose proof (sorted_dom_tail _ _ H) as Ht.
+  assert (snd a < fst b /\ fst b <= snd b).
+  { cbn [sorted_dom] in H. lia. }
+  destruct Hr as [<-|Hr]; [lia|]. specialize (IH b Ht Hr). lia.
+Qed.
+
+Lemma sorted_dom_nth_lt d j k a b :
+  sorted_dom d = true -> nth_error d j = Some a -> nth_error d k = Some b -> (j < k)%nat -> snd a < fst b.
+Proof.
+  revert j k. induction d as [|r t IH]; intros j k H Hj Hk Hjk.
+  - destruct j; discriminate.
+  - destruct k; [lia|]. cbn in Hk. destruct j; cbn in Hj.
+    + injection Hj as ->. apply (sorted_dom_head_lt a t); auto. eapply nth_error_In; eauto.
+    + apply (IH j k); auto. eapply sorted_dom_tail; eauto. lia.
+Qed.
+
+Lemma last_lt_idx_spec d m i best :
+  last_lt_idx d m i best = best \/
+  exists j r, nth_error d j = Some r /\ fst r < m /\ last_lt_idx d m i best = Some (i + j)%nat.
+Proof.
+  revert i best. induction d as [|r0 t IH]; intros i best; cbn [last_lt_idx]; auto.
+  destruct (IH (S i) (if fst r0 <? m then Some i else best)) as [E|(j & r & Hj & Hr & E)].
+  - rewrite E. destruct (fst r0 <? m) eqn:F; auto.
+    right. exists 0%nat, r0. split; [reflexivity|]. split; [lia|]. f_equal. lia.
+  - right. exists (S j), r. split; [exact Hj|]. split; [lia|]. rewrite E. f_equal. lia.
+Qed.
+
+Lemma propagate_min_sound d min_v v :
+  sorted_dom d = true -> dom_in d v = true -> min_v <= v -> dom_in (propagate_min d min_v) v = true.
+Proof.
+  intros Hs H Hv. unfold propagate_min.
+  destruct (last_lt_idx_spec d min_v 0 None) as [E|(k & rk & Hk & Hrk & E)]; rewrite E; auto.
+  cbn [Nat.add]. apply dom_in_iff in H. destruct H as (r & Hr & Hin). apply dom_in_iff.
+  destruct k as [|k].
+  - destruct d as [|r0 t]; [destruct Hr|]. destruct Hr as [<-|Hr].
+    + exists (Z.max (fst r0) min_v, snd r0). split; [left; auto|]. cbn [fst snd]. lia.
+    + exists r. split; [right; auto | lia].
+  - apply In_nth_error in Hr. destruct Hr as (j & Hj).
+    destruct (le_lt_dec (S k) j) as [L|L].
+    + exists r. split; [|lia]. apply (in_skipn_nth d j); auto.
+    + pose proof (sorted_dom_nth_lt d j (S k) r rk Hs Hj Hk L). lia.
+Qed.
+
+Lemma dom_in_cons r t v : dom_in (r :: t) v = in_rng r v || dom_in t v.
+Proof. reflexivity. Qed.
+
+Lemma sorted_dom_tail_gt a t v : sorted_dom (a :: t) = true -> dom_in t v = true -> snd a < v.
+Proof.
+  intros H Hv. apply dom_in_iff in Hv. destruct Hv as (r & Hr & Hin).
+  pose proof (sorted_dom_head_lt a t r H Hr). lia.
+Qed.
+
+Lemma isect_sound v f : forall a b,
+  (length a + length b <= f)%nat -> sorted_dom a = true -> sorted_dom b = true ->
+  dom_in a v = true -> dom_in b v = true -> dom_in (isect f a b) v = true.
+Proof.
+  induction f as [|f IH]; intros a b Hf Sa Sb Ha Hb.
+  - destruct a; [discriminate|]. cbn in Hf. lia.
+  - destruct a as [|ra ta]; [discriminate|]. destruct b as [|rb tb]; [discriminate|].
+    cbn [isect]. cbn [length] in Hf.
+    pose proof (sorted_dom_tail _ _ Sa) as Sta. pose proof (sorted_dom_tail _ _ Sb) as Stb.
+    assert (Rest : (in_rng ra v && in_rng rb v = false) ->
+                   dom_in (if snd ra <? snd rb then isect f ta (rb :: tb) else isect f (ra :: ta) tb) v = true).
+    { intros N. rewrite dom_in_cons in Ha, Hb.
+      destruct (dom_in ta v) eqn:Da; destruct (dom_in tb v) eqn:Db.
+      - destruct (snd ra <? snd rb).
+        + apply IH; auto. cbn [length]. lia. rewrite dom_in_cons, Db. apply orb_true_r.
+        + apply IH; auto. cbn [length]. lia. rewrite dom_in_cons, Da. apply orb_true_r.
+      - pose proof (sorted_dom_tail_gt ra ta v Sa Da) as G. rewrite orb_false_r in Hb.
+        destruct (snd ra <? snd rb) eqn:C.
+        + apply IH; auto. cbn [length]. lia. rewrite dom_in_cons, Hb. reflexivity.
+        + exfalso. unfold in_rng in *. lia.
+      - pose proof (sorted_dom_tail_gt rb tb v Sb Db) as G. rewrite orb_false_r in Ha.
+        destruct (snd ra <? snd rb) eqn:C.
+        + exfalso. unfold in_rng in *. lia.
+        + apply IH; auto. cbn [length]. lia. rewrite dom_in_cons, Ha. reflexivity.
+      - rewrite orb_false_r in Ha, Hb. rewrite Ha, Hb in N. discriminate. }
+    destruct (in_rng ra v && in_rng rb v) eqn:Both.
+    + replace (Z.max (fst ra) (fst rb) <=? Z.min (snd ra) (snd rb)) with true by (unfold in_rng in *; lia).
+      rewrite dom_in_cons. apply orb_true_iff. left. unfold in_rng in *. cbn [fst snd]. lia.
+    + specialize (Rest eq_refl). destruct (Z.max (fst ra) (fst rb) <=? Z.min (snd ra) (snd rb)); auto.
+      rewrite dom_in_cons, Rest. apply orb_true_r.
+Qed.
+
+Lemma intersect_dom_sound a b v :
+  sorted_dom a = true -> sorted_dom b = true ->
+  dom_in a v = true -> dom_in b v = true -> dom_in (intersect_dom a b) v = true.
+Proof. intros. unfold intersect_dom. apply isect_sound; auto. Qed.
